@@ -250,7 +250,7 @@ theorem list_roundtrip_all (f : PyVal → R Bytes) (g : Bytes → R (PyVal × By
       | succ fuel =>
         have hf' : r.length < fuel := by simp at hf; omega
         have := hda r
-        simp [decodeAll, this, hdr fuel hf', bind, Except.bind]
+        simp [decodeAll, this, hdr fuel hf', hne, bind, Except.bind]
 
 /-! ### leaf cases: round trip, non-empty encoding, BufferEmptyError on an empty buffer -/
 
